@@ -122,6 +122,7 @@ def run_path(ex: Exec, C: FnContract, node, res: FnResult):
     ex.st = st
     ex.counters = {}
     ex.try_stack = []
+    ex.loop_old_stack = []
     ex.old_stack = []
     ex.spec_mode = 0
     ex.entry = None
